@@ -69,6 +69,9 @@ def build(c):
     if c.get("bonds"):
         from ase.constraints import FixBondLengths
         atoms.set_constraint(FixBondLengths(c["bonds"]))      # rigid bonds: a non-linear constraint (momenta are projected when set)
+    if c.get("hookean"):
+        from ase.constraints import Hookean
+        atoms.set_constraint(Hookean(a1=0, a2=1, k=c["hookean"], rt=0.1))      # a force-contributing restraint: part of the total energy AND of the forces
     atoms.set_momenta(fh(c["p"], (n, 3)))
     atoms.calc = Pot(fh(c["k"]), fh(c["r0"], (n, 3)), c.get("quartic", 0.0), c.get("morse"))
     return atoms
